@@ -66,7 +66,20 @@ func Short(s string) string {
 
 // Load type-checks ./... of the repository under the configuration and
 // builds SSA for the whole program (dependencies included).
+// Load loads, type-checks and builds one configuration. A failed load is
+// retried once: the only transient cause seen is the shared Go build cache
+// being cleaned by another process while `go list` reads it; a real type
+// error fails again and is reported.
 func Load(cfg Config, overlay map[string][]byte) (*Prog, error) {
+	p, err := loadOnce(cfg, overlay)
+	if err != nil {
+		time.Sleep(3 * time.Second)
+		p, err = loadOnce(cfg, overlay)
+	}
+	return p, err
+}
+
+func loadOnce(cfg Config, overlay map[string][]byte) (*Prog, error) {
 	gobin := os.Getenv("KYVERIF_GOBIN")
 	if gobin == "" {
 		gobin = "/opt/veriftools/go1.26.8/bin"
